@@ -18,10 +18,15 @@ oracle: the property itself, evaluated on the implementation's outputs: a
         wrapped evaluator returns at that moment.
 """
 import json
+import os
 import struct
+import sys
 
 import vv
 import prims_common as pc
+
+sys.path.insert(0, os.path.join(vv.VERIF, "translate"))
+import cache_proto
 
 M32 = 2 ** 32
 
@@ -155,6 +160,9 @@ def gen_proxy_script(rng, thorough):
             ops.append("C")      # ... and is followed by a clear before the next evaluation
             dirty = False
             continue
+        if r < 0.22:
+            ops.append("S")      # end of a session: proxy.save, a new proxy loads (search::close / search::init)
+            continue
         k = rng.choice(hot) if rng.random() < 0.8 else rng.choice(pool)
         if (k, version) not in eva:
             eva[(k, version)] = rand_fit(rng)
@@ -265,6 +273,18 @@ def oracle(script, out):
             prev = (o, a, v)
     else:
         for n, (o, a, v) in enumerate(ops):
+            if o == "S":
+                ok, before, after = toks[ti][2:].split("|")
+                ti += 1
+                eb = {k: f for k, f in parse_dump(before)[1].items() if f}
+                ea = {k: f for k, f in parse_dump(after)[1].items() if f}
+                # transparency only forbids that the new proxy holds something the old one did not
+                # (forgetting entries is harmless here; the model diff still reports it)
+                if not set(ea.items()) <= set(eb.items()):
+                    bad.append(("proxy:save-load",
+                                "op %d: evaluator_proxy::save then load into a new proxy (ok=%s): the new cache holds "
+                                "an entry the saved one did not: %s" %
+                                (n, ok, sorted(set(ea.items()) - set(eb.items()))[0])))
             if o == "E":
                 r = parse_fit(toks[ti][2:].split("/")[0])
                 ti += 1
@@ -360,16 +380,29 @@ FIXED_SCRIPTS = [
     # both proxies around the real dss, consulted before and after shakes that fire (seeded/C04-2)
     "D 7 30 1 77 E,1,5 U,1,5 G,1 E,1,5 U,1,5 G,2 U,1,5 E,1,5 U,2,9 G,3 U,2,9 U,1,5 Q U,1,5 E,1,5",
     "D 7 12 2 5 U,3,3 E,3,3 G,1 U,3,3 G,2 U,3,3 E,3,3 G,3 G,4 U,3,3 E,3,3",
+    "P 7 E,1,5,3ff0000000000000 E,2,6 S E,1,5,3ff0000000000000 E,2,6 C S E,1,5,4000000000000000 E,3,3 S E,3,3 E,1,5,4000000000000000 E,81,5,4008000000000000 S E,81,5,4008000000000000 E,1,5,4000000000000000",
     "P 7 E,1,5,3ff0000000000000 E,1,5,3ff0000000000000 C E,1,5,4000000000000000 E,2,2 E,2,2 E,81,5,bff8000000000000 E,1,5,4000000000000000",
 ]
 
 
 def run(ck):
     L = vv.build_lib("asan")
+    # regenerate the table-level facts the model interprets (Gen/CacheTable.v)
+    text, problems, facts = cache_proto.generate_table(L["snap"])
+    if problems:
+        ck.notes.append("translator: " + "; ".join(problems)[:500] +
+                        " -- Gen/CacheTable.v kept as hand-written model, tie = correspondence only")
+    else:
+        with vv.Lock("coq"):
+            vv.write_if_changed(os.path.join(vv.COQ, "Gen", "CacheTable.v"), text)
+        ck.tie = "regenerated+correspondence"
+    ck.coverage["table_facts"] = facts
     res = vv.prove("Properties_C04", set())
     ck.add_proof(res)
     ck.add_proof(vv.prove("Refuted_C04", set()))
-    ck.trusted += ["coq/Cache/CacheDefs.v as a faithful model of cache.cc / evaluator_proxy.tcc (tied by correspondence only)",
+    ck.trusted += ["translate/cache_proto.py (table-level facts of cache.cc / cache_hash.h -> Gen/CacheTable.v) and the "
+                   "interpreter coq/Cache/CacheGenDefs.v of those facts; the parts of coq/Cache/CacheDefs.v the facts do not "
+                   "cover (token-level stream reading, the proxy) are tied by correspondence only",
                    "extraction: ExtrOcamlBasic only, no Extract Constant; ocaml/cache_driver.ml + zutil.ml",
                    "harness/h_cache.cc (private members read through #define private public); g++ 12 ASan/UBSan"]
     ck.assumptions += [
